@@ -1245,6 +1245,7 @@ void World::doPrint(const Step &st, StepRecord &rec) {
 
 void World::run() {
     alloc_set_fill_seed(plan.fill_seed);
+    disk_mkdirs(disk_root() + "/" + cfg.actor);
     obj.reset(new ezc3d::c3d());
     cur = take_snapshot(*obj);
     int prevOp = -1;
